@@ -49,8 +49,11 @@ def marshal_version_for(v):
 
 
 class Encoder:
-    def __init__(self, version, choices=None, allow_refs=None, extra_flagrefs=True):
+    def __init__(self, version, choices=None, allow_refs=None, extra_flagrefs=True, layout_version=None):
         self.v = vtuple(version)
+        # the code-object field layout may be that of another version (the interpreter that will judge the stream)
+        # while every encoding choice is gated by `version`, so both streams differ in the header ints only
+        self.lv = vtuple(layout_version) if layout_version else self.v
         self.ch = choices or Choices()
         self.py2 = self.v < (3, 0)
         self.refs_ok = (self.v >= (3, 4)) if allow_refs is None else allow_refs
@@ -301,7 +304,7 @@ class Encoder:
 
     # -- code objects
     def w_code(self, d, flag, reserve):
-        v = self.v
+        v = self.lv
         self.code("c", flag)
         reserve()
 
@@ -407,6 +410,8 @@ def encode(tree, version, choices=(), **kw):
 def strip_sharing(t):
     """The plain canonical tree an encoding stands for (sharing expanded)."""
     k = t[0]
+    if k == "i":
+        return ["i", t[1]]
     if k == "=":
         return strip_sharing(t[2])
     if k in ("T", "L"):
